@@ -337,6 +337,8 @@ pub fn c18(em: &mut Emit, thorough: bool, _seed: u64) {
                                     n += d.len() as u64;
                                 }
                                 FOut::Eof => errored = true,
+                                // (an error of another type or kind is a failure signal too)
+                                FOut::OtherErr(e) if e != "pending" => errored = true,
                                 FOut::End => {
                                     if n != b - a {
                                         ok = false;
@@ -446,6 +448,8 @@ pub fn c18(em: &mut Emit, thorough: bool, _seed: u64) {
                             n += d.len() as u64;
                         }
                         FOut::Eof => errored = true,
+                                // (an error of another type or kind is a failure signal too)
+                                FOut::OtherErr(e) if e != "pending" => errored = true,
                         FOut::End => {
                             if n != r2.1 - r2.0 {
                                 ok = false;
@@ -1173,7 +1177,15 @@ fn classify_io(e: &std::io::Error) -> String {
         Some(libc::ENOENT) => "ERR:notfound".into(),
         Some(libc::ENOTDIR) => "ERR:notdir".into(),
         Some(libc::ENAMETOOLONG) => "ERR:toolong".into(),
-        _ => "ERR:other".into(),
+        Some(_) => "ERR:other".into(),
+        // an error that carries a kind but no errno (a crate that maps errnos to kinds itself
+        // still "fails the way opening that file fails")
+        None => match e.kind() {
+            std::io::ErrorKind::NotFound => "ERR:notfound".into(),
+            std::io::ErrorKind::NotADirectory => "ERR:notdir".into(),
+            std::io::ErrorKind::InvalidFilename => "ERR:toolong".into(),
+            _ => "ERR:other".into(),
+        },
     }
 }
 
